@@ -11,7 +11,7 @@ exec >$OUT.log 2>&1
 set -x
 if [ ! -d $WT ]; then mkdir -p /tmp/confirm; git -C /repo worktree add -q --detach $WT HEAD || exit 2; fi
 cd $WT && git reset -q --hard && git checkout -q --detach $(git -C /repo rev-parse HEAD) && git reset -q --hard && git clean -fdq
-PATCH=$SRC/patch.diff
+PATCH=$SRC/${PATCHNAME:-patch.diff}
 if ! git apply --check $PATCH; then
 	echo "$ID/$N patch_applies=NO" > $OUT.summary; exit 0
 fi
@@ -27,7 +27,7 @@ mkdir -p $DEST
 TEST=$(basename $DEMO .rs)
 cp $SRC/*.rs $DEST/
 FEAT=""
-if [ $PKG = jsonrpsee-core ]; then FEAT="--features server,client,async-client,http-helpers"; fi
+if [ $PKG = jsonrpsee-core ]; then FEAT="--features server,client,async-client,http-helpers,verif-hooks"; fi
 timeout 1500 cargo test -p $PKG --offline $FEAT --test $TEST > $OUT.demo_clean.log 2>&1; RC_CLEAN=$?
 git apply ${APPLY:-} $PATCH
 timeout 1500 cargo test -p $PKG --offline $FEAT --test $TEST > $OUT.demo_patched.log 2>&1; RC_PATCHED=$?
